@@ -235,6 +235,15 @@ def random_instance(rnd):
     for _ in range(rnd.randint(0, 4)):
         cells.add(tuple(rnd.choice([-1] + list(range(A[j]))) for j in range(N)))
     reads = [{"cells": list(c), "cnt": rnd.randint(1, 3)} for c in sorted(cells)]
+    if P <= 3 and rnd.random() < 0.1:
+        # (API level) a haplotype of prior frequency exactly zero that a deep sample supports by far more than the range
+        # of a double (64 SNVs, > 900 nats): no move may ever give it any probability
+        K, N, A = rnd.choice([2, 3]), 4, [2, 2, 2, 2]
+        H = [[0, 0, 0, 0], [1, 1, 1, 1], [0, 0, 0, 1]][:K]
+        w = [rnd.randint(1, 3), 0, rnd.randint(1, 3)][:K]
+        reads = [{"cells": [0, 0, -1, 0], "cnt": 1}, {"cells": [1, 1, 1, 1], "cnt": 5}]
+        return {"P": P, "m": "random", "Fn": rnd.choice([0, 3, 8]), "Fd": 16, "pat": "random", "K": K, "N": N, "H": H, "A": A, "w": w,
+                "reads": reads, "tile": 16, "deep": True, "start": [0] * P if K == 2 else sorted(rnd.choice([0, 2]) for _ in range(P))}
     return {"P": P, "m": "random", "Fn": Fn, "Fd": 16, "pat": "random", "K": K, "N": N, "H": H, "A": A, "w": w, "reads": reads}
 
 
@@ -465,12 +474,18 @@ def main():
     for _ in range(n_rand):
         inst = random_instance(rnd)
         a0 = sorted(rnd.randrange(inst["K"]) for _ in range(inst["P"]))
+        a0 = inst.pop("start", a0)
         big = inst["P"] > 100
+        deep = inst.get("deep", False)
+        long_locus = False
+        if not big and not deep and inst["P"] <= 3 and inst["K"] <= 3 and 2 <= inst["N"] <= 3 and rnd.random() < 0.3:
+            inst["tile"] = 16 if inst["N"] == 2 else 12     # a long locus: reads mismatch haplotypes at dozens of SNVs
+            long_locus = True
         if big:
             a0 = [0] * (inst["P"] - 2) + [inst["K"] - 1] * 2
             if inst["Fn"] == 0:
                 inst["Fn"] = 3
-        tj.append({"inst": inst, "a0": a0, "kind": "gibbs" if big else rnd.choice(["gibbs", "mh"]), "n_steps": 1 if big else steps, "seed": rnd.randrange(2**31)})
+        tj.append({"inst": inst, "a0": a0, "kind": "gibbs" if big else rnd.choice(["gibbs", "mh"]), "n_steps": 1 if big else 2 if (deep or long_locus) else steps, "seed": rnd.randrange(2**31)})
     res = pool.map_tasks("impl.c02", [{"op": "sampler_trace", "jobs": tj[i : i + 10]} for i in range(0, len(tj), 10)], mode="py")
     cases = []
     for rr in res:
